@@ -46,6 +46,12 @@ def _query(entry, data, X, y, extra):
             Q = np.vstack([Q, (new[0] if np.any(new[0]) else np.ones(d)) * float(ex[1:])])
         else:
             Q = np.vstack([Q, np.full((1, d), float(ex))])
+    if extra.get("big_batch"):
+        # a batch of 8193 .. 10001 rows (sizes that do not divide evenly into blocks of 4096): the drawn rows repeated, every repetition
+        # shifted a little so that rows differ
+        nbig = int(extra["big_batch"])
+        reps = nbig // len(Q) + 1
+        Q = np.vstack([Q + 0.001 * r for r in range(reps)])[:nbig]
     if kind == "nmf":
         Q = np.abs(Q)
     return np.ascontiguousarray(Q)
@@ -267,7 +273,8 @@ def _cases(draw, name, tier="quick"):
     extra = dict(rows=[draw(st.integers(0, 40)) for _ in range(draw(st.integers(2, 6)))],
                  new=[[draw(cell) for _ in range(4)] for _ in range(draw(st.integers(3, 6)))],
                  docs=[" ".join(draw(st.lists(st.sampled_from(R.WORDS + ["zebra", "x"]), min_size=0, max_size=5))) for _ in range(3)],
-                 extreme=draw(st.sampled_from([None, None, None, 1e17, -1e17, 1e12, "x200", "x2000", "x-2000", "x20000"])))
+                 extreme=draw(st.sampled_from([None, None, None, 1e17, -1e17, 1e12, "x200", "x2000", "x-2000", "x20000"])),
+                 big_batch=draw(st.sampled_from([8193, 10001, 12290])) if draw(st.integers(0, 3 if name == "PiecewiseTreeRegressor" else 15)) == 0 else 0)
     k = 16
     return dict(cls=name, spec=spec, data=data, extra=extra, seed=draw(st.integers(0, 2**31 - 10)),
                 perm=[draw(st.integers(0, 40)) for _ in range(k)], sub=[draw(st.integers(0, 40)) for _ in range(draw(st.integers(1, 6)))],
